@@ -260,6 +260,33 @@ theorem ugrid_roundtrip (d : UDialect) (n w : Nat) (m : Mesh) (hm : WFMesh n w m
   intro f _
   exact shiftRow_enc d.base hd.1 w f
 
+/-- **locality**: what a connectivity table of a UGRID dataset decodes to depends only on that
+    table's own variable (values, `_FillValue`, `start_index`, dtype), whatever tables stand
+    before or after it in the dataset. -/
+theorem decodeUgrid_table_local (pre post : List USource) (s : USource) :
+    (decodeUgridAll (pre ++ s :: post))[pre.length]? = some (decodeUgrid s) := by
+  unfold decodeUgridAll
+  rw [List.map_append, List.map_cons,
+    List.getElem?_append_right (by simp)]
+  simp
+
+/-- **UGRID round trip, per table**: a dataset whose tables are written each in its OWN dialect
+    (index base, declared or not, fill value and its form, dtype, width — drawn independently)
+    decodes table by table to the standard table of that table's element lists. -/
+theorem ugrid_dataset_roundtrip (tabs : List (UDialect × Nat × Nat × Mesh))
+    (h : ∀ t ∈ tabs, WFMesh t.2.1 t.2.2.1 t.2.2.2 ∧ DialectOK t.1 t.2.1 t.2.2.1 t.2.2.2) :
+    decodeUgridAll (tabs.map (fun t => encodeUgrid t.1 t.2.2.1 t.2.2.2))
+      = tabs.map (fun t => .ok (pad t.2.2.1 t.2.2.2)) := by
+  unfold decodeUgridAll
+  rw [List.map_map]
+  apply List.map_congr_left
+  intro t ht
+  exact ugrid_roundtrip t.1 t.2.1 t.2.2.1 t.2.2.2 (h t ht).1 (h t ht).2
+
+example : (decodeUgridAll [encodeUgrid ⟨1, true, .int (-1), .i32⟩ 4 [[0, 1, 2, 3], [1, 4, 5]],
+      encodeUgrid ⟨0, false, .none, .i64⟩ 2 [[0, 1], [1, 2], [2, 0]]]).map Except.toOption
+    = [some [[0, 1, 2, 3], [1, 4, 5, FILL]], some [[0, 1], [1, 2], [2, 0]]] := by decide
+
 example : DialectOK ⟨1, false, .int (-1), .i32⟩ 6 4 [[0, 1, 2, 3], [1, 4, 5]]
     ∧ WFMesh 6 4 [[0, 1, 2, 3], [1, 4, 5]] := by decide
 example : (decodeUgrid (encodeUgrid ⟨1, false, .nan, .f64⟩ 4 [[0, 1, 2, 3], [1, 4, 5]])).toOption
